@@ -119,8 +119,30 @@ pub fn gen_conc_run(verif_seed: u64, j: u64) -> ConcRun {
         }
         _ => Policy::OpBoundary(1.0),
     };
-    let mut kills = Vec::new();
+    // a caller whose render really panics (the raster path cannot parse a document with a quote
+    // in the image reference): pre-existing behaviour of that one call, and the only way a
+    // caller can leave `to_file` early. Whatever it held must not break the other callers.
     if faulty && rng.chance(1, 3) {
+        let t = rng.usize_below(tasks.len());
+        let at = rng.usize_below(tasks[t].len() + 1);
+        let poison = IoOp {
+            kind: Kind::Png,
+            qr: QrCfg::new(b"poison".to_vec()),
+            setters: vec![RSetter::Image(ImageSpec::Raw("logo \"<draft>.png".to_string()))],
+            target: Target::Scratch(format!("poison-t{}.png", t)),
+            pre: Pre::Absent,
+            plan: PlanSpec::default(),
+            via_convert: false,
+            pad_to: None,
+            rlimit: None,
+            litter: Vec::new(),
+            cwd: 0,
+            crash_at: None,
+        };
+        tasks[t].insert(at, poison);
+    }
+    let mut kills = Vec::new();
+    if faulty && rng.chance(1, 3) && crate::c14::egen::inject_crashes() {
         let t = rng.usize_below(tasks.len());
         let o = rng.usize_below(tasks[t].len());
         let k = match rng.below(3) {
@@ -181,7 +203,23 @@ pub fn exec_conc(ctx: &Ctx, run: &ConcRun, stats: &mut Stats) -> ConcReport {
                         break;
                     }
                     let Some(pre) = prepared[id][i].as_ref() else {
-                        // not a C19 case (the QR code or the in-memory rendering is not Ok)
+                        // not a C19 case (the QR code or the in-memory rendering is not Ok). If it
+                        // is the raster path that panics, the call is made all the same - its
+                        // outcome does not matter, what it leaves behind for the others does.
+                        if op.kind == Kind::Png {
+                            if let Ok(Ok(qr)) = catch_unwind(|| op.qr.fresh_builder().build()) {
+                                sched::op_boundary(&sim, id);
+                                sched::op_begin(&sim, id, &sched::Crash::default());
+                                shim::set_yield_at_syscalls(true);
+                                let path = format!("{}/{}", dir.to_string_lossy(), match &op.target { Target::Scratch(n) => n.clone(), _ => "poison.png".into() });
+                                let r = catch_unwind(AssertUnwindSafe(|| img_builder_from(&op.setters).to_file(&qr, &path)));
+                                shim::set_yield_at_syscalls(false);
+                                sched::op_end(&sim, id);
+                                if r.is_err() {
+                                    local.bump("fired:caller_panicked_in_renderer(real)", 1);
+                                }
+                            }
+                        }
                         local.ops_skipped += 1;
                         continue;
                     };
